@@ -54,8 +54,9 @@ const (
 
 // provDesc: what the harness knows about a provider value (oracle bookkeeping, independent of the Lean model)
 type provDesc struct {
-	leaf   int   // identity of the int64/uuid provider at the bottom
-	scopes []int // string-factory identities of the pass-through wrappers, outermost first
+	leaf      int   // identity of the int64/uuid provider at the bottom
+	scopes    []int // string-factory identities of the pass-through wrappers, outermost first
+	propagate bool  // the leaf is the fallback PropagateDecoderPipeBlankNodeStringProvider installs (default configuration)
 }
 
 type hres struct {
@@ -88,6 +89,8 @@ type glCall struct {
 }
 
 var uuidRe = regexp.MustCompile(`[0-9a-f]{8}-[0-9a-f]{4}-[0-9a-f]{4}-[0-9a-f]{4}-[0-9a-f]{12}`)
+
+var uuidFull = regexp.MustCompile(`^[0-9a-f]{8}-[0-9a-f]{4}-[0-9a-f]{4}-[0-9a-f]{4}-[0-9a-f]{12}$`)
 
 const zeroUUID = "00000000-0000-0000-0000-000000000000"
 
@@ -255,7 +258,7 @@ func execHistory(toks []string) (h *history, err error) {
 			}
 			inner := h.res[b.k].pd
 			r = hres{kind: kProv, prov: spp.GetStringProvider(h.res[b.k].prov),
-				pd: &provDesc{leaf: inner.leaf, scopes: append([]int{h.res[a.k].facID}, inner.scopes...)}}
+				pd: &provDesc{leaf: inner.leaf, scopes: append([]int{h.res[a.k].facID}, inner.scopes...), propagate: inner.propagate}}
 		case f[0] == "GL" && len(f) == 3:
 			a, e1 := parseArg(f[1])
 			b, e2 := parseArg(f[2])
@@ -330,7 +333,7 @@ func execHistory(toks []string) (h *history, err error) {
 				p = rdfiotypes.PropagateDecoderPipeBlankNodeStringProvider(&rdfiotypes.DecoderHandle{DecoderBlankNodes: fac})
 				if p != nil {
 					h.nLf++
-					r = hres{kind: kProv, prov: p, pd: &provDesc{leaf: h.nLf, scopes: []int{facID}}}
+					r = hres{kind: kProv, prov: p, pd: &provDesc{leaf: h.nLf, scopes: []int{facID}, propagate: true}}
 				}
 			}
 			if p == nil {
@@ -422,6 +425,13 @@ func (h *history) oracle(toks []string) {
 		return ""
 	}
 	for _, c := range h.gl {
+		if c.ownScope < 0 && c.pd.propagate && (!uuidFull.MatchString(c.label) || c.label == zeroUUID) {
+			cl := ""
+			if c.label == zeroUUID {
+				cl = "uuid-first-call-zero"
+			}
+			add(cl, "op %d %s: the provider installed by PropagateDecoderPipeBlankNodeStringProvider labelled a node that is not a string node of the decoding factory %q, which is not a UUID (default fallback must not produce labels a document can contain)", c.op, toks[c.op], c.label)
+		}
 		if c.ownScope >= 0 {
 			if c.label != c.ownLabel {
 				add("", "op %d %s: pass-through provider returned %q for a string node labelled %q of its own factory", c.op, toks[c.op], c.label, c.ownLabel)
@@ -453,8 +463,16 @@ func (h *history) oracle(toks []string) {
 		plk := fmt.Sprintf("%d|%s", c.provIdx, c.label)
 		if p, ok := byProvLabel[plk]; ok && p.nodeAbs != c.nodeAbs {
 			if (p.ownScope >= 0) != (c.ownScope >= 0) {
-				// hypothesis of passthrough_injective_partial fails: a user-chosen label equals a generated one
-				h.excluded = append(h.excluded, fmt.Sprintf("ops %d %s / %d %s: string node label %q equals a label of the fallback provider", p.op, toks[p.op], c.op, toks[c.op], c.label))
+				// hypothesis of passthrough_injective_partial fails: a user-chosen label equals a generated one.
+				// Excused (known finding) only when the fallback was constructed explicitly by the caller
+				// (GetStringProvider over NewInt64StringProvider/NewUUIDStringProvider) or the user-chosen label is
+				// the text of a UUID; with the default propagate fallback any other collision is a violation.
+				msg := fmt.Sprintf("ops %d %s / %d %s: different nodes (%s, %s): string node label %q equals a label of the fallback provider", p.op, toks[p.op], c.op, toks[c.op], p.nodeAbs, c.nodeAbs, c.label)
+				if !c.pd.propagate || uuidFull.MatchString(c.label) {
+					h.excluded = append(h.excluded, msg)
+				} else {
+					add("", "%s — with the default fallback of PropagateDecoderPipeBlankNodeStringProvider two source blank nodes must never share a label", msg)
+				}
 			} else if p.ownScope >= 0 && c.ownScope >= 0 && p.ownScope != c.ownScope {
 				h.excluded = append(h.excluded, fmt.Sprintf("ops %d / %d: chained pass-through providers, two factories use label %q", p.op, c.op, c.label))
 			}
@@ -473,7 +491,36 @@ type gen struct {
 
 var int64Formats = []string{"", "b%d", "x%dy", "%d", "n%v", "_%d_", "é%d", "c14n%d"}
 var uuidFormats = []string{"", "%s", "u%s", "%v-x"}
-var fixedLabels = []string{"", "a", "b0", "b1", "x", "0", "x0y", "n2", "b", "u", "é1", "c14n0", "_1_"}
+var fixedLabels = []string{"", "a", "b0", "b1", "x", "0", "x0y", "n2", "b", "u", "é1", "c14n0", "_1_",
+	// near-collisions: must all be different labels
+	"_:", "_:x", "_:_:x", "_:b0", "_:a", ":x", "_x", "x ", " x", "x\t", "X", "B0", "A", "b00", "b 0",
+	"\u00e9", "e\u0301", "\u00c9", "x\x00", "x\n", "b0\x00"}
+
+// variant: a label that differs from l only slightly (prefix "_:", white space, case, Unicode normal form)
+func variant(r *vh.Rng, l string) string {
+	switch r.Intn(10) {
+	case 0:
+		return "_:" + l
+	case 1:
+		return strings.TrimPrefix(l, "_:")
+	case 2:
+		return l + " "
+	case 3:
+		return " " + l
+	case 4:
+		return strings.ToUpper(l)
+	case 5:
+		return strings.ToLower(l)
+	case 6:
+		return strings.ReplaceAll(l, "\u00e9", "e\u0301")
+	case 7:
+		return strings.TrimSpace(l)
+	case 8:
+		return l + "\x00"
+	default:
+		return l + l
+	}
+}
 
 func (g *gen) history() []string {
 	n := 4 + g.r.Intn(28)
@@ -482,6 +529,7 @@ func (g *gen) history() []string {
 	}
 	var toks []string
 	var kinds []kind
+	var used []string // literal labels used so far in this history
 	pick := func(ks ...kind) (int, bool) {
 		var c []int
 		for i, k := range kinds {
@@ -539,10 +587,18 @@ func (g *gen) history() []string {
 			}
 			if j, ok := pick(kLabel); ok && g.r.Chance(25) {
 				emit(fmt.Sprintf("NS:r%d:@r%d", i, j), kNode)
-			} else if g.r.Chance(15) {
-				emit(fmt.Sprintf("NS:r%d:%s", i, vh.XS(g.r.LexicalForm())), kNode)
 			} else {
-				emit(fmt.Sprintf("NS:r%d:%s", i, vh.XS(vh.Pick(g.r, fixedLabels))), kNode)
+				var l string
+				switch {
+				case len(used) > 0 && g.r.Chance(25):
+					l = variant(g.r, vh.Pick(g.r, used))
+				case g.r.Chance(15):
+					l = g.r.LexicalForm()
+				default:
+					l = vh.Pick(g.r, fixedLabels)
+				}
+				used = append(used, l)
+				emit(fmt.Sprintf("NS:r%d:%s", i, vh.XS(l)), kNode)
 			}
 		case w < 42:
 			emit("NI:"+vh.XS(vh.Pick(g.r, int64Formats)), kProv)
@@ -603,6 +659,8 @@ func exhaustive(depth int, each func([]string)) int {
 		}
 		last := p + len(seq) - 1 // most recent result
 		alphabet := []string{"NB:r0", "NB:d", "NB:r1", "NS:r1:x", "NS:r1:x6230", "NS:r2:x6230", "NS:r1:x6231",
+			"NS:r1:x5f3a6230", "NS:r1:x5f3a", "NS:r1:x4230", "NS:r1:x623020", // "_:b0", "_:", "B0", "b0 "
+
 			"GL:r3:r7", "GL:r6:r7", "GL:r6:r8", "GL:r4:r8", "GL:r4:r7", "MN:r5:r7", "MN:r5:r8", "EQ:r7:r8"}
 		if len(seq) > 0 {
 			// operations on the most recent result when it is a node / label
@@ -969,6 +1027,18 @@ func main() {
 		items = items[:0]
 	}
 
+	// known findings are counted in full but only a few are listed, after all failures: vh.Report keeps at
+	// most 200 cases and a known finding must never push a violation or a disagreement out of the report
+	var knownCases []vh.Case
+	nKnown := 0
+	addKnown := func(c vh.Case) {
+		nKnown++
+		rep.Count("known:" + c.Key)
+		if len(knownCases) < 10 {
+			knownCases = append(knownCases, c)
+		}
+	}
+
 	run := func(toks []string, kindName string) {
 		line := "bn.run " + strings.Join(toks, " ")
 		h, err := execHistory(toks)
@@ -990,8 +1060,7 @@ func main() {
 		rep.Count(fmt.Sprintf("len:%02d-%02d", len(toks)/10*10, len(toks)/10*10+9))
 		for _, v := range h.viol {
 			if f, ok := known[v.class]; ok && v.class != "" {
-				rep.Add(vh.Case{Kind: "known", Key: f.Key, Op: line, Detail: f.What + " — " + v.detail})
-				rep.Count("known:" + f.Key)
+				addKnown(vh.Case{Kind: "known", Key: f.Key, Op: line, Detail: f.What + " — " + v.detail})
 				continue
 			}
 			d := v.detail
@@ -1002,8 +1071,7 @@ func main() {
 		}
 		for _, e := range h.excluded {
 			if f, ok := known["passthrough-label-collides-with-fallback"]; ok {
-				rep.Add(vh.Case{Kind: "known", Key: f.Key, Op: line, Detail: f.What + " — " + e})
-				rep.Count("known:" + f.Key)
+				addKnown(vh.Case{Kind: "known", Key: f.Key, Op: line, Detail: f.What + " — " + e})
 			} else {
 				rep.Count("excluded:passthrough-collision (hypothesis of passthrough_injective_partial)")
 			}
@@ -1069,7 +1137,7 @@ func main() {
 			n, depth, runs = 1000000**scale, 4, 20000**scale
 		}
 		cnt := exhaustive(depth, func(toks []string) { run(toks, "exhaustive") })
-		rep.Exhaustive = append(rep.Exhaustive, fmt.Sprintf("all %d sequences of %d operations over a 15..19-letter alphabet (factories, string labels, providers, mapper, TermEquals) after a fixed 9-operation prelude", cnt, depth))
+		rep.Exhaustive = append(rep.Exhaustive, fmt.Sprintf("all %d sequences of %d operations over a 19..23-letter alphabet (factories, string labels, providers, mapper, TermEquals) after a fixed 9-operation prelude", cnt, depth))
 		for i := 0; i < n; i++ {
 			run(g.history(), "random")
 		}
@@ -1085,6 +1153,11 @@ func main() {
 	}
 
 	flush()
+	for _, c := range knownCases {
+		if len(rep.Cases) < 190 {
+			rep.Add(c)
+		}
+	}
 	if rep.Cases == nil {
 		rep.Cases = []vh.Case{}
 	}
@@ -1094,7 +1167,7 @@ func main() {
 		os.Exit(2)
 	}
 	fmt.Printf("c14: %d histories, %d compared with the model, %d concurrent runs (%d ops), %d failures, %d known\n",
-		rep.Evaluations, rep.Compared, st.Runs, st.Ops, rep.Failures(), len(rep.Cases)-rep.Failures())
+		rep.Evaluations, rep.Compared, st.Runs, st.Ops, rep.Failures(), nKnown)
 	if rep.Failures() > 0 {
 		os.Exit(1)
 	}
